@@ -703,3 +703,113 @@ def option_test_edges(prog, fn, names=("is_none",)):
                     if e and e[0] != e[1]:
                         out.append((b, t, e[0], e[1], g))
     return out
+
+
+def reachable_cp(fn, start, avoid=(), env=None):
+    """blocks reachable from `start` (inclusive) without entering `avoid`, pruning the switches the path
+    itself decides: a local assigned a constant (or a copy / negation of such a local) on the way from
+    `start` selects the matching edge of a later switch on it (the materialised `a && b` of a named
+    condition).  Environments meet at joins (a value survives only if all walked paths agree), so the
+    result over-approximates the feasible blocks and never drops one."""
+    avoid = set(avoid)
+    if start in avoid:
+        return set()
+    taken = {s_["rv"]["p"][0] for _, _, s_ in fn.assigns() if s_["rv"]["k"] in ("ref", "rawptr")}
+    envs = {start: dict(env or {})}
+    work = [start]
+    while work:
+        b = work.pop()
+        e = dict(envs[b])
+        for s in fn.blocks[b]["stmts"]:
+            if s["k"] != "assign":
+                continue
+            l, proj = s["lhs"][0], s["lhs"][1]
+            if proj:
+                if "*" in proj:
+                    e = {}      # store through a pointer: forget everything (conservative)
+                else:
+                    e.pop(l, None)
+                continue
+            rv = s["rv"]
+            v = None
+            if rv["k"] == "use":
+                o = rv["op"]
+                if o["k"] == "const" and o.get("int") is not None:
+                    v = int(o["int"])
+                elif op_local(o) is not None and op_local(o) in e:
+                    v = e[op_local(o)]
+            elif rv["k"] == "unop" and rv["op"] == "Not" and op_local(rv["a"]) in e and e[op_local(rv["a"])] in (0, 1):
+                v = 1 - e[op_local(rv["a"])]
+            if v is None or l in taken:
+                e.pop(l, None)
+            else:
+                e[l] = v
+        t = fn.blocks[b]["term"]
+        succ = fn.succs(b)
+        if t["k"] == "switch":
+            dl = op_local(t["discr"])
+            if dl is not None and dl in e:
+                tgt = None
+                for val, tg in t["targets"]:
+                    if int(val) == e[dl]:
+                        tgt = tg
+                succ = [tgt if tgt is not None else t["otherwise"]]
+        elif t["k"] in ("call", "tailcall"):
+            if "dest" in t:
+                if t["dest"][1]:
+                    e = {}
+                else:
+                    e.pop(t["dest"][0], None)
+        for s in succ:
+            if s in avoid:
+                continue
+            if s not in envs:
+                envs[s] = dict(e)
+                work.append(s)
+            else:
+                old = envs[s]
+                new = {k: v for k, v in old.items() if k in e and e[k] == v}
+                if new != old:
+                    envs[s] = new
+                    work.append(s)
+    return set(envs)
+
+
+def bool_chain_env(fn, dl, value):
+    """environment for reachable_cp saying that the switch discriminant `dl` has `value` (0/1): the locals it is a
+    copy / negation of (walking back single definitions, ending at the first local that is not such a copy) get the
+    corresponding value"""
+    env = {}
+    cur, v = dl, int(value)
+    for _ in range(12):
+        env[cur] = v
+        d = fn.single_def(cur)
+        if not d or d[0] != "stmt":
+            break
+        rv = d[3]["rv"]
+        if rv["k"] == "use" and op_local(rv["op"]) is not None:
+            cur = op_local(rv["op"])
+        elif rv["k"] == "unop" and rv["op"] == "Not" and op_local(rv["a"]) is not None:
+            cur, v = op_local(rv["a"]), 1 - v
+        else:
+            break
+    return env
+
+
+def upvar_parent_leaves(prog, g, leaf, through_calls=False):
+    """for a leaf of a backward slice inside closure body g that is a place rooted in the closure environment (_1.k ..):
+    the leaves of the slice, in the enclosing function, of the operand captured as upvar k (empty if not such a leaf)"""
+    if leaf[0] != "place" or not g.parent_fn or leaf[1][0] != 1:
+        return []
+    ks = [e[1] for e in leaf[1][1] if isinstance(e, list) and e[0] == "."]
+    par = prog.fns.get(g.parent_fn)
+    if not ks or par is None:
+        return []
+    out = []
+    for b, i, s_ in par.assigns():
+        rv = s_["rv"]
+        if rv["k"] == "agg" and rv.get("ak") == "closure" and rv.get("def") == g.id and ks[0] < len(rv["f"]):
+            pl_ = op_place(rv["f"][ks[0]])
+            if pl_ is not None:
+                out += backward_slice(par, [pl_[0]], through_calls=through_calls)[1]
+    return out
